@@ -7,6 +7,7 @@ mod acc;
 mod aggregator;
 mod gadget;
 mod ipa;
+mod verify;
 
 use mzkh::family::{FamParams, GateKind, LookupKind};
 
@@ -76,6 +77,15 @@ fn run_gadget(ctx: &mut Ctx) {
     for (i, (fp, extra_k)) in shapes.iter().enumerate() {
         gadget::run_light(ctx, &mut setup, fp, *extra_k, 500 + i as u64, n_mut);
     }
+    // boundary: an inner circuit without instance columns (no instance query at all)
+    gadget::run_light(
+        ctx,
+        &mut setup,
+        &FamParams { n_committed: 0, n_plain: 0, inst_copies: false, ..FamParams::default() },
+        0,
+        590,
+        n_mut,
+    );
     for i in 0..n_random {
         let fp = sample_supported(&mut rng);
         let extra_k = if rng.gen_bool(0.3) { rng.gen_range(1..=3) } else { 0 };
